@@ -37,6 +37,13 @@ def instances(tier):
                              "B": {"strategies": strats, "deadline": 4 + fast + 1 + off, "state": "RELEASED", "release": 3}}
                     inst = {"now": 4, "workers": ws, "graphs": [{"name": "G0", "tasks": ["A", "B"], "edges": [["A", "B"]]}], "tasks": tasks}
                     out.append({"name": f"{kind}-{opts.get('goal', '')}-d{opts.get('time_discretization', '')}-w{''.join(map(str, ws))}-s{len(strats)}-{dk}", "kind": kind, "opts": opts, "inst": inst})
+        # a task planned earlier for a later slot (still SCHEDULED) that has to be re-placed by a planner that does not retract: its late cells stay forbidden
+        if kind in ("TSG", "TSC") and opts.get("time_discretization") == 1:
+            for dk, dl in (("tight", 9), ("loose", 16)):
+                tasks = {"S": {"strategies": [[5, 1]], "deadline": dl, "state": "SCHEDULED", "worker": 0, "strategy": 0, "at": 4},
+                         "N": {"strategies": [[3, 1]], "deadline": 8, "state": "RELEASED", "release": 1}}
+                inst = {"now": 2, "workers": [1], "graphs": [{"name": "GS", "tasks": ["S"], "edges": []}, {"name": "GN", "tasks": ["N"], "edges": []}], "tasks": tasks}
+                out.append({"name": f"{kind}--d1-w1-scheduled-task-replaced-without-retraction-{dk}", "kind": kind, "opts": dict(opts, retract_schedules=False), "inst": inst})
     if tier == "quick":
         out = [o for o in out if not (o["kind"] != "ILP" and "-d2-" in o["name"] and "-w21-" in o["name"])]
     return out
